@@ -110,7 +110,16 @@ typedef struct {
     VmString **intern_table;
     uint32_t intern_count;
     uint32_t intern_capacity;
+#ifdef NANOLANG_VERIF
+    struct VerifReg *verif_reg;   /* registry of live heap objects (verification hook) */
+#endif
 } VmHeap;
+#ifdef NANOLANG_VERIF
+typedef struct VerifReg { void **slots; uint32_t cap; uint32_t count; uint64_t n_reg; uint64_t n_unreg; uint64_t n_bad_unreg; const char *last_bad_site; } VerifReg;
+void verif_reg_add(VmHeap *heap, void *obj);
+void verif_reg_del(VmHeap *heap, void *obj, const char *site);
+bool verif_reg_has(const VmHeap *heap, const void *obj);
+#endif
 
 /* ========================================================================
  * Heap API
